@@ -5,7 +5,7 @@ import warnings
 
 from hypothesis import strategies as st
 
-from ..common import CaseInfo, Violation, classify_exception
+from ..common import CaseInfo, PamsCrash, Violation, classify_exception
 from ..oracles import Analysis
 from ..simharness import IndexMarket, Market, run_case
 from ..strategies import market_names, crossing_pair, program_strategy, spec_strategy
@@ -93,7 +93,14 @@ def check_index_history(idx, comps, shares, upto, where):
 
 
 def check_case(case):
-    res = run_case(case, OPTS)
+    try:
+        res = run_case(case, OPTS)
+    except PamsCrash as c:
+        # an index that cannot be evaluated on an admissible configuration (its computation is on the stack of the failure)
+        if any(f[0].endswith("index_market.py") for f in c.pams_frames):
+            raise Violation("C17.index_cannot_be_computed", f"{c.exc_type}: {c.exc_msg} (index markets {[n for n in ('IDX', 'IDX2') if n in case['config']]}, "
+                                                            f"components {[case['config'][n]['markets'] for n in ('IDX', 'IDX2') if n in case['config']]})", c.tb_text)
+        raise
     A = Analysis(case, res)
     sim, cfg = A.sim, case["config"]
     n_fund = 0
